@@ -35,6 +35,9 @@ for pid in sorted(data):
             elif r.get("caught_by_other"):
                 c["other check"] += 1
                 listing.append((key(r), "reported by " + ", ".join(r["caught_by_other"]), r["stmt"]))
+            elif r.get("own_recheck", {}).get("status", "survived") != "survived":
+                c["gap->fixed"] += 1
+                listing.append((key(r), "gap of the property's own check, closed after the campaign: now " + r["own_recheck"]["status"] + " " + ", ".join(r["own_recheck"].get("signatures", [])[:2]), r["stmt"]))
             else:
                 verdict = cls.get(key(r), "")
                 if verdict.startswith("equivalent"):
